@@ -74,11 +74,45 @@ fn sub_vec_diff<K: SubtypeCheck + Clone + Ord + FlatLit>(v1: &[K], v2: &[K]) -> 
                 && forall|x: K| #![trigger r->Ok_0@.contains(x)] #![trigger v1@.contains(x)] #![trigger v2@.contains(x)] r->Ok_0@.contains(x) == (v1@.contains(x) && !v2@.contains(x)),
 { unimplemented!() }
 
-// R5 (declaration-only): SubtypeCheck impls are used only inside sub_vec_* (external above).
-impl SubtypeCheck for StringLitOrFormat { #[verifier::external_body] fn is_subtype(&self, other: &StringLitOrFormat) -> Result<bool> { unimplemented!() } }
-impl SubtypeCheck for NumberRepresentationOrFormat { #[verifier::external_body] fn is_subtype(&self, other: &NumberRepresentationOrFormat) -> Result<bool> { unimplemented!() } }
-impl SubtypeCheck for VoidUndefinedSubtype { #[verifier::external_body] fn is_subtype(&self, other: &Self) -> Result<bool> { unimplemented!() } }
-impl SubtypeCheck for TypedArrayKind { #[verifier::external_body] fn is_subtype(&self, other: &Self) -> Result<bool> { unimplemented!() } }
+// T2: derived PartialEq on the literal payload types is structural equality
+impl vstd::std_specs::cmp::PartialEqSpecImpl for NumberRepresentationOrFormat {
+    open spec fn obeys_eq_spec() -> bool { true }
+    open spec fn eq_spec(&self, other: &NumberRepresentationOrFormat) -> bool { *self == *other }
+}
+impl vstd::std_specs::cmp::PartialEqSpecImpl for StringLitOrFormat {
+    open spec fn obeys_eq_spec() -> bool { true }
+    open spec fn eq_spec(&self, other: &StringLitOrFormat) -> bool { *self == *other }
+}
+impl vstd::std_specs::cmp::PartialEqSpecImpl for TypedArrayKind {
+    open spec fn obeys_eq_spec() -> bool { true }
+    open spec fn eq_spec(&self, other: &TypedArrayKind) -> bool { *self == *other }
+}
+impl vstd::std_specs::cmp::PartialEqSpecImpl for VoidUndefinedSubtype {
+    open spec fn obeys_eq_spec() -> bool { true }
+    open spec fn eq_spec(&self, other: &VoidUndefinedSubtype) -> bool { *self == *other }
+}
+pub assume_specification[ <NumberRepresentationOrFormat as PartialEq>::eq ](a: &NumberRepresentationOrFormat, b: &NumberRepresentationOrFormat) -> (r: bool)
+    ensures r == (*a == *b);
+pub assume_specification[ <StringLitOrFormat as PartialEq>::eq ](a: &StringLitOrFormat, b: &StringLitOrFormat) -> (r: bool)
+    ensures r == (*a == *b);
+// T2 (structural equality of Rust values): template literals with the same items are equal
+#[verifier::external_body]
+pub broadcast proof fn axiom_tpl_ext(a: TplLitType, b: TplLitType)
+    requires #[trigger] a.0@ =~= #[trigger] b.0@
+    ensures a == b
+{}
+// R5 (contract-only, ASSUMED): Verus has no slice patterns (`([a], [b]) => Ok(a == b)`)
+impl TplLitType {
+    #[verifier::external_body]
+    fn is_subtype(&self, other: &TplLitType) -> (r: Result<bool>)
+        ensures self.0@.len() == 1 && other.0@.len() == 1 ==> r is Ok && r->Ok_0 == (self.0@[0] == other.0@[0])
+    { unimplemented!() }
+}
+// R5 (declaration-only): subset test on format names; formats are outside the format-free fragment
+impl CustomFormat {
+    #[verifier::external_body]
+    fn is_subtype(&self, other: &CustomFormat) -> bool { unimplemented!() }
+}
 
 // ---- values (ghost). A structured value (object, list, Map, Set) is abstracted by the set of
 // atoms it belongs to (T6 in DESIGN.md: all assignments over-approximate all values).
